@@ -3,6 +3,7 @@
 package main
 
 import (
+	"encoding/json"
 	"flag"
 	"fmt"
 	"os"
@@ -31,7 +32,28 @@ func main() {
 	noControls := flag.Bool("nocontrols", false, "skip positive controls (used for variant children)")
 	overlay := flag.String("overlay", "", "file=replacement pairs, comma separated (analyse a variant)")
 	keysOnly := flag.Bool("keys", false, "print violated obligation keys only; write nothing")
+	replay := flag.String("replay", "", "replay file of a reported obligation: re-decide that obligation on the current tree; writes nothing")
 	flag.Parse()
+	var replayKey string
+	if *replay != "" {
+		b, err := os.ReadFile(*replay)
+		if err != nil {
+			fmt.Println("replay:", err)
+			os.Exit(2)
+		}
+		var rp struct {
+			Property   string `json:"property"`
+			Obligation struct {
+				Key string `json:"key"`
+			} `json:"obligation"`
+		}
+		if err := json.Unmarshal(b, &rp); err != nil || rp.Property == "" {
+			fmt.Println("replay: not a replay file:", *replay)
+			os.Exit(2)
+		}
+		*prop, replayKey = rp.Property, rp.Obligation.Key
+		*noControls = !strings.Contains(replayKey, "/controls")
+	}
 	start := time.Now()
 	seed, _ := strconv.ParseInt(os.Getenv("VERIF_SEED"), 10, 64)
 	rule := rules.Registry[*prop]
@@ -66,6 +88,26 @@ func main() {
 		if err != nil {
 			fmt.Printf("VIOLATION property=%s replay=- undecided: %v\n", *prop, err)
 			return 1
+		}
+		if replayKey != "" {
+			rep.Finalize(prog)
+			found := false
+			for _, o := range rep.Obligations {
+				if o.Key != replayKey {
+					continue
+				}
+				found = true
+				fmt.Printf("obligation %s\n  construct: %s\n  need: %s\n  have: %s\n  status: %s\n", o.Key, o.Construct, o.Need, o.Have, o.Status)
+				if o.Status != engine.Discharged {
+					fmt.Printf("VIOLATION property=%s replay=%s\n", *prop, *replay)
+					return 1
+				}
+			}
+			if !found {
+				fmt.Printf("obligation %s is not generated on the current tree (its construct is gone); run ./check.sh %s quick for the full verdict\n", replayKey, *prop)
+				return 1
+			}
+			return 0
 		}
 		if *keysOnly {
 			rep.Finalize(prog)
